@@ -31,9 +31,20 @@ def main():
         pid = meta["property"]
         r = sh(f"git -C {SCR} apply {d / 'patch.diff'}")
         if r.returncode != 0:
-            print(f"{name}: patch does not apply: {r.stdout}")
-            summary[name] = "patch-failed"
-            continue
+            # /repo moved on (fix: commits): try a 3-way merge and, if clean, keep the rebased patch
+            sh(f"git -C {SCR} reset -q --hard")
+            r3 = sh(f"git -C {SCR} apply --3way {d / 'patch.diff'}")
+            conflict = sh(f"git -C {SCR} diff --name-only --diff-filter=U").stdout.strip()
+            if r3.returncode != 0 or conflict:
+                print(f"{name}: patch no longer applies to /repo HEAD (needs rebase): {r3.stdout[-300:]}")
+                summary[name] = "needs-rebase"
+                sh(f"git -C {SCR} reset -q --hard && git -C {SCR} clean -fdq")
+                continue
+            if not (d / "patch.orig.diff").exists():
+                (d / "patch.orig.diff").write_text((d / "patch.diff").read_text())
+            (d / "patch.diff").write_text(sh(f"git -C {SCR} diff HEAD").stdout)
+            sh(f"git -C {SCR} reset -q")
+            print(f"{name}: patch rebased onto /repo HEAD by 3-way merge")
         t0 = time.time()
         env = dict(os.environ, VERIF_REPO_ROOT=str(SCR))
         r = sh(f"./check {pid} --tier {tier}", cwd=VERIF, env=env)
